@@ -1359,6 +1359,12 @@ func main() {
 			decisionFunc("driver/generic/sendcommand.go", "Driver.sendCommand"))
 		fmt.Fprintf(&sw, "(* driver/network/sendconfig.go Driver.SendConfig *)\nDefinition send_config_code : list dstmt :=\n  %s.\n",
 			decisionFunc("driver/network/sendconfig.go", "Driver.SendConfig"))
+		// util/queue.go (C20): every method, statement by statement
+		var qents []string
+		for _, fn := range []string{"NewQueue", "Queue.Requeue", "Queue.Enqueue", "Queue.Dequeue", "Queue.DequeueAll", "Queue.getDepth", "Queue.GetDepth"} {
+			qents = append(qents, fmt.Sprintf("  (%s,\n   %s)", q(fn), decisionFunc("util/queue.go", fn)))
+		}
+		fmt.Fprintf(&sw, "(* util/queue.go (C20) *)\nDefinition queue_code : list (string * list dstmt) := [\n%s].\n", strings.Join(qents, ";\n"))
 		sp := filepath.Join(filepath.Dir(*out), "GeneratedSkel.v")
 		olds, _ := os.ReadFile(sp)
 		if !bytes.Equal(olds, sw.Bytes()) {
